@@ -167,8 +167,9 @@ func c36BuildPicker(ws []float64) *picker {
 type c36Runaway struct{}
 
 type c36Fail struct {
-	kind string // short class, part of the violation key
-	desc string
+	kind   string // short class, part of the violation key
+	desc   string
+	prefix []int // timeline leg: the op prefix up to and including the failing query
 }
 
 type c36VecResult struct {
@@ -191,7 +192,7 @@ func c36RunVector(ws []float64) (res c36VecResult) {
 	p := c36BuildPicker(ws)
 	s := p.newScheduler(false)
 	if s == nil {
-		res.fails = append(res.fails, c36Fail{"nil-scheduler", "newScheduler returned nil for a non-empty endpoint set"})
+		res.fails = append(res.fails, c36Fail{kind: "nil-scheduler", desc: "newScheduler returned nil for a non-empty endpoint set"})
 		return
 	}
 	// Wrap the scheduler's counter function: the real picker.inc / picker.idx is
@@ -235,7 +236,7 @@ func c36RunVector(ws []float64) (res c36VecResult) {
 	}
 	fail := func(kind, f string, a ...any) {
 		if len(res.fails) < 4 {
-			res.fails = append(res.fails, c36Fail{kind, fmt.Sprintf(f, a...)})
+			res.fails = append(res.fails, c36Fail{kind: kind, desc: fmt.Sprintf(f, a...)})
 		}
 	}
 
@@ -422,6 +423,7 @@ func TestVerif_C36_Sched(t *testing.T) {
 	var wg sync.WaitGroup
 	var evals, nontriv, seqs, picks, ties, wrapOver int64
 	wrapMaxOverN := map[int]int{}
+	samples := map[string]any{}
 	work := make(chan int, 64)
 	nw := runtime.GOMAXPROCS(0)
 	for w := 0; w < nw; w++ {
@@ -477,8 +479,10 @@ func TestVerif_C36_Sched(t *testing.T) {
 				for _, f := range res.fails {
 					r.Violation(P, "sched w="+c36FmtW(ws)+" "+f.kind, f.desc, map[string]any{"weights": ws})
 				}
-				if len(ws) == 3 && !exp.rr && res.fails == nil {
-					r.Sample(P, map[string]any{"weights": ws, "scheduler": res.schedType, "expected_lo": exp.lo, "expected_hi": exp.hi, "counts_per_start": res.counts})
+				if k := c36FmtW(ws); k == "[1,0,2]" || k == "[7,3,0,1e-09]" || k == "[2,2]" {
+					mu.Lock()
+					samples[k] = map[string]any{"weights": ws, "scheduler": res.schedType, "statement_demands_rr": exp.rr, "expected_lo": exp.lo, "expected_hi": exp.hi, "counts_per_start": res.counts, "wrap_max_consumed": res.wrapMax}
+					mu.Unlock()
 				}
 			}
 		}()
@@ -501,7 +505,11 @@ func TestVerif_C36_Sched(t *testing.T) {
 			r.Set(P, fmt.Sprintf("wrap_max_consumed_minus_n_for_n=%d", n), int64(d))
 		}
 	}
-	r.Sample(P, map[string]any{"weights": []float64{1, 0, 2}, "expected": c36Expected([]float64{1, 0, 2})})
+	for _, k := range []string{"[1,0,2]", "[7,3,0,1e-09]", "[2,2]"} {
+		if v, ok := samples[k]; ok {
+			r.Sample(P, v)
+		}
+	}
 	r.Assume(P, "scaled weight = nearest integer to 65535*v/max(v) (v = weight, or mean of the non-zero weights for an endpoint without usable weight); where that value is within 2^-32 of a half-integer both neighbours are admitted (float64 evaluation of the scaling cannot be pinned down by the statement)")
 	r.Assume(P, "windows straddling the uint32 wrap of the sequence counter are checked for termination and index range only (65535*n does not divide 2^32; neither the exact share nor the <=n bound is demanded there)")
 	r.Assume(P, "weights are finite non-negative float64; n<=4")
@@ -548,6 +556,46 @@ func c36Close(got float64, want *big.Rat) bool {
 	d.Abs(d)
 	tol := new(big.Rat).Mul(want, new(big.Rat).SetFrac(big.NewInt(1), new(big.Int).Lsh(big.NewInt(1), 50)))
 	return d.Cmp(tol) <= 0
+}
+
+type c36MemoKey struct {
+	l   *c36Load
+	pen float64
+}
+
+type c36MemoVal struct {
+	w  *big.Rat
+	ok bool
+}
+
+var c36WeightMemo = map[c36MemoKey]c36MemoVal{}
+
+// memoised by menu entry (pointer identity) and penalty; single goroutine
+func c36RefWeightMemo(l *c36Load, pen float64) (*big.Rat, bool) {
+	k := c36MemoKey{l, pen}
+	v, ok := c36WeightMemo[k]
+	if !ok {
+		v.w, v.ok = c36RefWeight(*l, pen)
+		c36WeightMemo[k] = v
+	}
+	return v.w, v.ok
+}
+
+type c36CloseKey struct {
+	got  float64
+	want *big.Rat
+}
+
+var c36CloseMemo = map[c36CloseKey]bool{}
+
+func c36CloseMemoed(got float64, want *big.Rat) bool {
+	k := c36CloseKey{got, want}
+	v, ok := c36CloseMemo[k]
+	if !ok {
+		v = c36Close(got, want)
+		c36CloseMemo[k] = v
+	}
+	return v
 }
 
 type c36Event struct {
@@ -621,9 +669,10 @@ func c36RefQuery(h []c36Event, t time.Duration, B, E time.Duration) (want, alt *
 }
 
 type c36Op struct {
-	name string
-	load *c36Load
-	adv  time.Duration
+	name  string
+	load  *c36Load
+	adv   time.Duration
+	label string // outcome-class label of a valid report
 }
 
 type c36TimeCfg struct {
@@ -635,7 +684,7 @@ var c36Now time.Time // virtual clock read by the TimeNow seam (single goroutine
 
 // c36RunTimeline applies ops to a fresh real endpointWeight, checking every
 // query. Returns number of queries checked, outcome classes seen, failure.
-func c36RunTimeline(cfg c36TimeCfg, ops []c36Op, seq []int, classes map[string]int64) (queries int, nontrivial bool, fail *c36Fail) {
+func c36RunTimeline(cfg c36TimeCfg, ops []c36Op, seq []int, classes map[string]int64, trace *[]string) (queries int, nontrivial bool, fail *c36Fail) {
 	lcfg := &lbConfig{BlackoutPeriod: iserviceconfig.Duration(cfg.B), WeightExpirationPeriod: iserviceconfig.Duration(cfg.E), ErrorUtilizationPenalty: cfg.penalty}
 	ew := &endpointWeight{logger: c36Log, metricsRecorder: c36Recorder{}, cfg: lcfg}
 	p := &picker{cfg: lcfg, metricsRecorder: c36Recorder{}, weightedPickers: []pickerWeightedEndpoint{{weightedEndpoint: ew}}}
@@ -648,8 +697,8 @@ func c36RunTimeline(cfg c36TimeCfg, ops []c36Op, seq []int, classes map[string]i
 		case op.load != nil:
 			l := op.load
 			ew.OnLoadReport(&v3orcapb.OrcaLoadReport{RpsFractional: l.Qps, ApplicationUtilization: l.App, CpuUtilization: l.Cpu, Eps: l.Eps})
-			if w, ok := c36RefWeight(*l, cfg.penalty); ok {
-				hist = append(hist, c36Event{t: now, kind: 'R', w: w, label: op.name})
+			if w, ok := c36RefWeightMemo(l, cfg.penalty); ok {
+				hist = append(hist, c36Event{t: now, kind: 'R', w: w, label: op.label})
 			}
 		case op.adv != 0:
 			now += op.adv
@@ -660,6 +709,9 @@ func c36RunTimeline(cfg c36TimeCfg, ops []c36Op, seq []int, classes map[string]i
 			hist = append(hist, c36Event{t: now, kind: 'Q'})
 			queries++
 			classes[class]++
+			if trace != nil {
+				*trace = append(*trace, fmt.Sprintf("t=%v real=%v statement=%s", now, got, class))
+			}
 			if !strings.HasPrefix(class, "zero:no-report") && !strings.HasPrefix(class, "open:") {
 				nontrivial = true
 			}
@@ -667,7 +719,7 @@ func c36RunTimeline(cfg c36TimeCfg, ops []c36Op, seq []int, classes map[string]i
 				if w == nil {
 					return got == 0
 				}
-				return c36Close(got, w)
+				return got == got && c36CloseMemoed(got, w) // got==got: not NaN
 			}
 			ok := okOne(want)
 			if !ok && class == "open:silent-expiry-gap" {
@@ -678,11 +730,28 @@ func c36RunTimeline(cfg c36TimeCfg, ops []c36Op, seq []int, classes map[string]i
 				if want != nil {
 					ws = want.FloatString(9)
 				}
-				return queries, nontrivial, &c36Fail{kind: "weight " + class, desc: fmt.Sprintf("blackout=%v expiration=%v penalty=%v ops=%s: query #%d (step %d, t=%v) returned %v, statement demands %s (%s)", cfg.B, cfg.E, cfg.penalty, c36SeqString(ops, seq), queries, step, now, got, ws, class)}
+				return queries, nontrivial, &c36Fail{kind: "weight " + class, prefix: append([]int(nil), seq[:step+1]...), desc: fmt.Sprintf("blackout=%v expiration=%v penalty=%v ops=%s: query #%d (step %d, t=%v) returned %v, statement demands %s (%s)", cfg.B, cfg.E, cfg.penalty, c36SeqString(ops, seq[:step+1]), queries, step, now, got, ws, class)}
 			}
 		}
 	}
 	return queries, nontrivial, nil
+}
+
+// c36Minimise shrinks a failing op prefix: drop single ops while the shorter
+// sequence still fails.
+func c36Minimise(cfg c36TimeCfg, ops []c36Op, f *c36Fail) *c36Fail {
+	for again := true; again; {
+		again = false
+		for i := 0; i < len(f.prefix); i++ {
+			cand := append(append([]int(nil), f.prefix[:i]...), f.prefix[i+1:]...)
+			if _, _, g := c36RunTimeline(cfg, ops, cand, map[string]int64{}, nil); g != nil {
+				f = g
+				again = true
+				break
+			}
+		}
+	}
+	return f
 }
 
 func c36SeqString(ops []c36Op, seq []int) string {
@@ -703,8 +772,8 @@ func TestVerif_C36_Weight(t *testing.T) {
 	const B, E = 10 * time.Second, 30 * time.Second
 	ops := []c36Op{
 		{name: "query"},
-		{name: "reportA(qps=100,app=0.5,eps=0)", load: &c36Load{Qps: 100, App: 0.5}},
-		{name: "reportB(qps=1,app=0,cpu=1,eps=10)", load: &c36Load{Qps: 1, Cpu: 1, Eps: 10}},
+		{name: "reportA(qps=100,app=0.5,eps=0)", label: "A", load: &c36Load{Qps: 100, App: 0.5}},
+		{name: "reportB(qps=1,app=0,cpu=1,eps=10)", label: "B", load: &c36Load{Qps: 1, Cpu: 1, Eps: 10}},
 		{name: "reportEmpty(qps=0,app=0.5)", load: &c36Load{Qps: 0, App: 0.5}},
 		{name: "reportEmpty(qps=100,util=0)", load: &c36Load{Qps: 100}},
 		{name: "+1ns", adv: 1},
@@ -726,7 +795,7 @@ func TestVerif_C36_Weight(t *testing.T) {
 			return
 		}
 		cl := map[string]int64{}
-		q, _, f := c36RunTimeline(cfgs[rp.Cfg], ops, rp.Seq, cl)
+		q, _, f := c36RunTimeline(cfgs[rp.Cfg], ops, rp.Seq, cl, nil)
 		r.Eval(P, int64(q))
 		if f != nil {
 			r.Violation(P, "replay "+f.kind, f.desc, rp)
@@ -748,9 +817,9 @@ func TestVerif_C36_Weight(t *testing.T) {
 					for _, cpu := range []float64{0, 0.5, 1} {
 						for _, eps := range []float64{0, 10} {
 							l := c36Load{Qps: qps, App: app, Cpu: cpu, Eps: eps}
-							o := []c36Op{{name: fmt.Sprintf("report(qps=%v,app=%v,cpu=%v,eps=%v)", qps, app, cpu, eps), load: &l}, {name: "query"}, {name: "+1s", adv: time.Second}}
+							o := []c36Op{{name: fmt.Sprintf("report(qps=%v,app=%v,cpu=%v,eps=%v)", qps, app, cpu, eps), label: "formula-menu", load: &l}, {name: "query"}, {name: "+1s", adv: time.Second}}
 							for _, seq := range [][]int{{0, 1}, {0, 2, 1}, {1, 0, 1, 2, 1}} {
-								q, nt, f := c36RunTimeline(c36TimeCfg{0, E, pen}, o, seq, classes)
+								q, nt, f := c36RunTimeline(c36TimeCfg{0, E, pen}, o, seq, classes, nil)
 								evals += int64(q)
 								if nt {
 									nontriv++
@@ -786,28 +855,33 @@ func TestVerif_C36_Weight(t *testing.T) {
 				seq[i] = y % len(ops)
 				y /= len(ops)
 			}
-			q, nt, f := c36RunTimeline(cfg, ops, seq, classes)
+			q, nt, f := c36RunTimeline(cfg, ops, seq, classes, nil)
 			sequences++
 			evals += int64(q)
 			if nt {
 				nontriv++
 			}
 			if f != nil {
-				// canonical narrow key: configuration + the prefix up to the failing query
-				r.Violation(P, fmt.Sprintf("timeline cfg=%d %s", ci, f.kind), f.desc, map[string]any{"cfg": ci, "seq": append([]int(nil), seq...)})
+				// canonical narrow key: configuration + the failing prefix minimised by
+				// greedy single-op deletion (deterministic)
+				f = c36Minimise(cfg, ops, f)
+				r.Violation(P, fmt.Sprintf("timeline cfg=%d ops=%s", ci, c36SeqString(ops, f.prefix)), f.desc, map[string]any{"cfg": ci, "seq": f.prefix})
 			}
 		}
 	}
 	for c, n := range classes {
-		for i := int64(0); i < 1; i++ {
-			r.Outcome(P, c)
-		}
+		r.Outcome(P, c)
 		r.AddInt(P, "queries_"+c, n)
 	}
 	r.Eval(P, evals)
 	r.NontrivialN(P, nontriv)
 	r.Set(P, "timeline_sequences", sequences)
-	r.Sample(P, map[string]any{"cfg": "blackout=10s expiration=30s", "ops": "reportA +10s-1ns query +1ns query +30s-1ns query +1ns query", "statement": "0 (blackout), 200, 200 (30s-1ns... still fresh), then 0 (expired)"})
+	{
+		sseq := []int{1, 6, 0, 5, 0, 8, 0, 5, 0}
+		var tr []string
+		c36RunTimeline(cfgs[1], ops, sseq, map[string]int64{}, &tr)
+		r.Sample(P, map[string]any{"cfg": "blackout=10s expiration=30s penalty=1", "ops": c36SeqString(ops, sseq), "queries": tr})
+	}
 	r.Assume(P, "boundary instants follow gRFC A58: the weight is expired once now-lastReport >= expiration, and usable once now-firstReport >= blackout; reports with qps=0 or utilization=0 carry no usable data and are ignored; utilization = application_utilization, else cpu_utilization")
 	r.Assume(P, "float64 evaluation of the formula is compared with the exact rational value at relative tolerance 2^-50 (4 IEEE operations on positive operands)")
 	r.Assume(P, "histories in which two reports are separated by a gap >= expiration that no weight computation observed leave the blackout restart open; both answers are admitted there (counted as queries_open:silent-expiry-gap)")
